@@ -136,6 +136,15 @@ def body_json(ch, ctx):
     ctx.check(isinstance(text, str) and list(got.items()) == list(m.items()), "json-roundtrip-differs", dict(container=container),
               mapping=m, json=text, back=list(got.items()))
     ctx.check(isinstance(back, Attributes), "unjsonify-not-attributes", None, type=type(back).__name__)
+    # decoding the same stored text again is independent of what was done to an earlier decode
+    for k in list(back.keys()):
+        stored = back._d[k]
+        if isinstance(stored, list):
+            stored.append("EDITED")
+    back["new_key"] = ["n"]
+    again = G.as_plain(helpers._unjsonify(text, isattributes=True))
+    ctx.check(list(again.items()) == list(m.items()), "second-decode-of-same-json-differs", dict(container=container),
+              mapping=m, json=text, second=list(again.items()))
     # through a Feature constructed from the JSON text (what the database does)
     f = gffutils.Feature(seqid="c", start=1, end=2, attributes=text)
     ctx.check(list(G.as_plain(f.attributes).items()) == list(m.items()), "feature-from-json-differs", None, mapping=m,
